@@ -237,8 +237,19 @@ func (x *Exec) callContract(fr *Frame, st *State, ins ssa.Instruction, u *FuncUn
 			if c.Label != "" {
 				lbl = shortKey(u) + "." + c.Label
 			}
+			nb := len(x.obls)
 			x.addObl(fr, st, "pre", ins, lbl+"@"+anchorOf(x, fr, ins), pre.L[k])
-			x.assume(st, pre.L[k])
+			if len(x.obls) > nb && changesLockState(u) {
+				// the callee's contract describes a change of the lock state (or is merely assumed):
+				// it may only be relied on where its lock-state precondition holds
+				x.obls[len(x.obls)-1].Tag = c.Expr
+			}
+			if x.unit == nil || !x.unit.C.Partial || !lockClause(c.Expr) {
+				// (in a partial unit a lock-state precondition that is not generated as an obligation is
+				// not assumed either: assuming it against the tracked lock state would make everything
+				// after the call vacuous)
+				x.assume(st, pre.L[k])
+			}
 		}
 	}
 	// old values
@@ -305,6 +316,29 @@ func (x *Exec) callContract(fr *Frame, st *State, ins ssa.Instruction, u *FuncUn
 
 func shortKey(u *FuncUnit) string { return u.Key }
 
+func lockClause(e string) bool {
+	for _, w := range []string{"held(", "lockswap(", "lockdrop(", "nolocks(", "sending("} {
+		if strings.Contains(e, w) {
+			return true
+		}
+	}
+	return false
+}
+
+func changesLockState(u *FuncUnit) bool {
+	if u.C.Trusted {
+		return true
+	}
+	for _, c := range append(append([]Clause{}, u.C.Ensures...), u.C.Assumes...) {
+		for _, w := range []string{"held(", "lockswap(", "lockdrop(", "nolocks(", "sending("} {
+			if strings.Contains(c.Expr, w) {
+				return true
+			}
+		}
+	}
+	return false
+}
+
 func anchorOf(x *Exec, fr *Frame, ins ssa.Instruction) string {
 	if ins == nil {
 		return "defer"
@@ -329,14 +363,27 @@ func (x *Exec) applyEffects(st *State, u *FuncUnit, callee *ssa.Function) {
 				x.assumed["declared frame of "+u.Pkg.Name+"."+u.Key+" is narrower than the inferred one (assumed)"] = true
 			}
 		}
-		x.applyEff(st, eff)
+		x.applyEffExact(st, eff)
 		return
 	}
 	if callee == nil || callee.Blocks == nil {
 		x.havocAll(st)
 		return
 	}
-	x.applyEff(st, x.effectsOf(callee))
+	eff := x.effectsOf(callee)
+	if x.lockStateOn() && eff.Classes["g:held"] {
+		// inferred through a callee's callee that swaps locks (resolveHook): the callee itself is
+		// taken to leave the lock state as it found it, like every callee without a lock contract
+		e2 := &Effects{Top: eff.Top, Locks: eff.Locks, Classes: map[string]bool{}}
+		for c := range eff.Classes {
+			if c != "g:held" {
+				e2.Classes[c] = true
+			}
+		}
+		x.assumed["lock typestate: callees leave every mutex in the state they found it (unless their contract says otherwise)"] = true
+		eff = e2
+	}
+	x.applyEff(st, eff)
 }
 
 // resolveClass: "Type.field" of the contract's package -> heap class key; keys containing ':' are raw.
@@ -356,9 +403,31 @@ func subset(a, b map[string]bool) bool {
 	return true
 }
 
+// applyEff applies inferred effects.  In lock-typestate mode a callee without a lock contract is
+// taken to leave every mutex as it found it, also when a callee of its callees swaps locks.
 func (x *Exec) applyEff(st *State, eff *Effects) {
+	if x.lockStateOn() && eff.Classes["g:held"] {
+		e2 := &Effects{Top: eff.Top, Locks: eff.Locks, Classes: map[string]bool{}}
+		for c := range eff.Classes {
+			if c != "g:held" {
+				e2.Classes[c] = true
+			}
+		}
+		x.assumed["lock typestate: callees leave every mutex in the state they found it (unless their contract says otherwise)"] = true
+		eff = e2
+	}
+	x.applyEffExact(st, eff)
+}
+
+// applyEffExact applies effects as given (a contract's declared frame).
+func (x *Exec) applyEffExact(st *State, eff *Effects) {
 	if eff.Top {
 		x.havocAll(st)
+		for c := range eff.Classes {
+			if isGhostClass(c) {
+				x.havocClassPrefix(st, c) // ghost state survives a general havoc unless listed
+			}
+		}
 		if eff.Locks {
 			if x.lockStateOn() {
 				x.assumed["lock typestate: callees leave every mutex in the state they found it (unless their contract says otherwise)"] = true
@@ -712,7 +781,7 @@ func (x *Exec) special(fr *Frame, st *State, ins ssa.Instruction, callee *ssa.Fu
 				sub.reach = tb.True
 				sub.pc = nil
 				ex, body := x.runFunc(nf, sub)
-				guard := tb.And(x.nonNil(r), x.allocAt(x.now(x.oldState(fr)), r))
+				guard := tb.And(x.nonNil(r), x.allocAt(x.now(x.oldStateOr(fr, st)), r))
 				x.assumeForall(st, r, guard, ex.reach, nil, nil)
 				return Val{T: resT, L: []*Term{tb.Forall([]*Term{r}, tb.Implies(guard, body.L[0]))}}, true
 			}
@@ -746,6 +815,18 @@ func (x *Exec) special(fr *Frame, st *State, ins ssa.Instruction, callee *ssa.Fu
 			if isSpecBody(callee) {
 				h := x.heapGet(st, "g:held", tb.Array(tb.BV(64), tb.Bool))
 				return Val{T: resT, L: []*Term{tb.Eq(h, tb.ConstArray(tb.Array(tb.BV(64), tb.Bool), tb.False))}}, true
+			}
+		case "lockswap", "lockdrop":
+			if isSpecBody(callee) {
+				// two-state: the held set is the pre-state's with `from` released (and `to` acquired)
+				hs := tb.Array(tb.BV(64), tb.Bool)
+				h := x.heapGet(st, "g:held", hs)
+				h0 := x.heapGet(x.oldState(fr), "g:held", hs)
+				want := tb.Store(h0, x.lockRef(args[0]), tb.False)
+				if callee.Name() == "lockswap" {
+					want = tb.Store(want, x.lockRef(args[1]), tb.True)
+				}
+				return Val{T: resT, L: []*Term{tb.Eq(h, want)}}, true
 			}
 		case "onlyheld":
 			if isSpecBody(callee) {
@@ -989,6 +1070,20 @@ func (x *Exec) lockRef(v Val) *Term {
 		return v.L[1]
 	}
 	return v.L[0]
+}
+
+// oldStateOr: the pre-state of the enclosing contract, or st itself where there is none (a
+// precondition is evaluated in the pre-state).
+func (x *Exec) oldStateOr(fr *Frame, st *State) *State {
+	for f := fr; f != nil; f = f.parent {
+		if f.oldState != nil {
+			return f.oldState
+		}
+	}
+	if x.entry != nil {
+		return x.entry
+	}
+	return st
 }
 
 func (x *Exec) oldState(fr *Frame) *State {
